@@ -86,12 +86,16 @@ def run(ctx):
     R5 = rep.rule('C02.R5', 'the two AssetMap impls use the same HashMap operation per trait method', floor=3)
     R6 = rep.rule('C01.R4', 'key hash/eq use both id and type (shared with C01)', floor=7)
     R7 = rep.rule('C01.R7', 'take/remove (get_shard_mut) look in the shard that get/insert (get_shard) use (shared with C01)', floor=2)
+    R9 = rep.rule('C10.R7', 'a Type pairs the TypeId of T with the descriptor of the same T (shared with C10): look-ups use the key the insertion used', floor=2)
     R8 = rep.rule('C10.R8', 'AssetMap::insert stores its entry argument if and only if the key was absent (shared with C10)', floor=2)
     for cfg, F in ctx.cfgs():
         hr = 'hot-reloading' in ctx.cfg_features[cfg]
         from c10 import r8 as stores_the_entry_argument
         stores_the_entry_argument(R8, cfg, F)
         R8.finish_cfg(cfg)
+        from c10 import r7 as type_descriptors
+        type_descriptors(R9, cfg, F, only_pairing=True)
+        R9.finish_cfg(cfg)
         r1(R1, cfg, F, hr)
         r2(R2, cfg, F)
         r3(R3, cfg, F)
